@@ -5,6 +5,7 @@ import (
 	"go/token"
 	"go/types"
 	"sort"
+	"strings"
 
 	"golang.org/x/tools/go/ssa"
 )
@@ -167,6 +168,197 @@ func checkC03(w *World) {
 		}
 	}
 	w.floor(P, "R03.4", 10)
+	// R03.5 concatenations stored by handlers
+	docRule(P, "R03.5", "P", "a node-set that a handler stores as the context result after concatenating several node-sets (append of a slice with ...) passed through the forward normaliser on every path; the union builds its concatenation in a slice allocated by the handler (appending onto an operand would reorder the caller's variable).")
+	n5 := 0
+	doneH := map[*ssa.Function]bool{}
+	var hnts []string
+	for nt := range f.Handlers {
+		hnts = append(hnts, nt)
+	}
+	sort.Strings(hnts)
+	for _, nt := range hnts {
+		for _, fn := range w.handlerClosure(f.Handlers[nt].Fn) {
+			if doneH[fn] || len(fn.Params) == 0 {
+				continue
+			}
+			doneH[fn] = true
+			for _, st := range resultStores(fn, r) {
+				concat := sliceContains(st.Val, func(v ssa.Value) bool {
+					c, ok := v.(*ssa.Call)
+					if !ok {
+						return false
+					}
+					b, ok := c.Call.Value.(*ssa.Builtin)
+					if !ok || b.Name() != "append" || !types.Identical(c.Type(), r.NodeSet) && !isCursorSlice(c.Type(), r) {
+						return false
+					}
+					// appending a whole slice (not a one-element varargs array)
+					if sl, ok := c.Call.Args[1].(*ssa.Slice); ok {
+						if _, isAlloc := sl.X.(*ssa.Alloc); isAlloc {
+							return false
+						}
+					}
+					return true
+				})
+				if !concat {
+					continue
+				}
+				n5++
+				ok, why := w.valueNormalised(st.Val, 1, 0)
+				w.check(P, "R03.5", "concatenated node-set stored by "+fn.Name(), st.Pos(), ok, orOK(why))
+			}
+		}
+	}
+	if h := f.Handlers["UnionExprUnion"]; h != nil {
+		allInstrs(h.Fn, func(in ssa.Instruction) {
+			c, ok := in.(*ssa.Call)
+			if !ok {
+				return
+			}
+			b, ok := c.Call.Value.(*ssa.Builtin)
+			if !ok || b.Name() != "append" {
+				return
+			}
+			base := c.Call.Args[0]
+			local := false
+			seen := map[ssa.Value]bool{}
+			var isLocal func(v ssa.Value) bool
+			isLocal = func(v ssa.Value) bool {
+				if seen[v] {
+					return true
+				}
+				seen[v] = true
+				switch x := v.(type) {
+				case *ssa.MakeSlice:
+					return true
+				case *ssa.Slice:
+					_, isAlloc := x.X.(*ssa.Alloc)
+					return isAlloc
+				case *ssa.Call:
+					if bb, ok := x.Call.Value.(*ssa.Builtin); ok && bb.Name() == "append" {
+						return isLocal(x.Call.Args[0])
+					}
+				case *ssa.Phi:
+					for _, e := range x.Edges {
+						if !isLocal(e) {
+							return false
+						}
+					}
+					return true
+				}
+				return false
+			}
+			local = isLocal(base)
+			n5++
+			w.check(P, "R03.5", "union concatenates into its own slice", c.Pos(), local, fmt.Sprintf("the slice appended to was allocated by the handler: %v", local))
+		})
+	}
+	w.floor(P, "R03.5", 3)
+	// R03.6 node-sets are never modified in place
+	docRule(P, "R03.6", "F", "no function of the evaluator writes into a node-set it did not allocate itself: every append to, element store into, copy into or sort of a NodeSet (or []store.Cursor) has a first argument that originates only from a make/composite literal/append chain local to the function (a node-set received through the context, a parameter or a variable is shared with the caller, with sibling contexts of a predicate loop and with the bound variable; filtering it in place with s[:0] corrupts them).")
+	eff := w.Effects()
+	cg := w.CallGraph()
+	isNS := func(t types.Type) bool {
+		if p, ok := t.Underlying().(*types.Pointer); ok {
+			t = p.Elem()
+		}
+		sl, ok := t.Underlying().(*types.Slice)
+		if !ok {
+			return false
+		}
+		return types.Identical(t, r.NodeSet) || types.Identical(sl.Elem(), r.Cursor)
+	}
+	// foreignAt: the non-local origins of v in fn; an origin that is a parameter of fn is pushed to every caller.
+	var foreignAt func(fn *ssa.Function, v ssa.Value, seen map[string]bool) []string
+	foreignAt = func(fn *ssa.Function, v ssa.Value, seen map[string]bool) []string {
+		var out []string
+		for t := range eff.newOriginCtx(fn).origin(v) {
+			if t == "L" {
+				continue
+			}
+			var k int
+			if n, _ := fmt.Sscanf(t, "P%d", &k); n == 1 && !strings.HasSuffix(t, "*") && k < len(fn.Params) {
+				key := fmt.Sprintf("%s#%d", fn.String(), k)
+				if seen[key] {
+					continue
+				}
+				seen[key] = true
+				node := cg.Nodes[fn]
+				if node == nil || len(node.In) == 0 {
+					out = append(out, "parameter "+fn.Params[k].Name()+" of "+fn.Name()+" (no caller found)")
+					continue
+				}
+				for _, e := range node.In {
+					if !inRepo(e.Caller.Func) {
+						out = append(out, "parameter "+fn.Params[k].Name()+" of "+fn.Name()+" (called from outside the repository: "+e.Caller.Func.String()+")")
+						continue
+					}
+					args := callArgs(e.Site)
+					if k >= len(args) {
+						continue
+					}
+					for _, f2 := range foreignAt(e.Caller.Func, args[k], seen) {
+						out = append(out, f2+" via "+e.Caller.Func.Name()+"->"+fn.Name())
+					}
+				}
+				continue
+			}
+			out = append(out, t+" in "+fn.Name())
+		}
+		sort.Strings(out)
+		return out
+	}
+	sortIface := func(fn *ssa.Function) bool { // Len/Less/Swap of a sort.Interface implementation: covered by the sort.Sort site
+		if fn.Signature.Recv() == nil {
+			return false
+		}
+		switch fn.Name() {
+		case "Len", "Less", "Swap":
+			return true
+		}
+		return false
+	}
+	w.forAllFuncs("exec", func(fn *ssa.Function) {
+		if sortIface(fn) {
+			return
+		}
+		site := func(pos token.Pos, what string, target ssa.Value) {
+			if !isNS(target.Type()) {
+				return
+			}
+			foreign := foreignAt(fn, target, map[string]bool{})
+			w.check(P, "R03.6", what+" in "+fn.Name(), pos, len(foreign) == 0, fmt.Sprintf("target originates from memory not allocated by the evaluation: %v", foreign))
+		}
+		allInstrs(fn, func(in ssa.Instruction) {
+			switch x := in.(type) {
+			case *ssa.Store:
+				if ia, ok := x.Addr.(*ssa.IndexAddr); ok {
+					if _, isArr := ia.X.Type().Underlying().(*types.Pointer); !isArr {
+						site(x.Pos(), "element store", ia.X)
+					}
+				}
+			case *ssa.Call:
+				if b, ok := x.Call.Value.(*ssa.Builtin); ok {
+					if (b.Name() == "append" || b.Name() == "copy") && len(x.Call.Args) > 0 {
+						site(x.Pos(), b.Name(), x.Call.Args[0])
+					}
+					return
+				}
+				if sc := staticCallee(x); sc != nil && sc.Pkg != nil && sc.Pkg.Pkg.Path() == "sort" && len(x.Call.Args) > 0 {
+					a := x.Call.Args[0]
+					if mi, ok := a.(*ssa.MakeInterface); ok {
+						a = mi.X
+					}
+					if ct, ok := a.(*ssa.ChangeType); ok {
+						a = ct.X
+					}
+					site(x.Pos(), "sort."+sc.Name(), a)
+				}
+			}
+		})
+	})
+	w.floor(P, "R03.6", 20)
 	// abbreviated steps (@, .., //, implicit child) collect only through the normalising selectors
 	w.include(P, "C01", "R01.4")
 }
